@@ -25,6 +25,7 @@ type c30Net struct {
 	oneway    int
 	shared    int // points on >= 2 ways
 	tagged    int // points with a tag besides their geometry
+	dense     bool
 }
 
 var (
@@ -240,4 +241,64 @@ func (n *c30Net) String() string {
 		sb.WriteString(s.String() + "|")
 	}
 	return sb.String()
+}
+
+// c30DenseNetwork generates a dense network: 8..14 junctions joined by 18..40
+// two-point streets with varied weights, so that a search has a large frontier
+// and lowers the distance of queued points many times.
+func c30DenseNetwork(r *core.R) *c30Net {
+	n := &c30Net{dense: true}
+	cx, cy := int64(515300000+r.Intn(20000)), int64(-1200000+r.Intn(20000))
+	np := r.Range(8, 14)
+	cells := r.Perm(49)
+	for i := 0; i < np; i++ {
+		gx, gy := int64(cells[i]%7), int64(cells[i]/7)
+		n.points = append(n.points, &wm.Spec{ID: b6.FeatureID{Type: b6.FeatureTypePoint, Namespace: b6.NamespaceOSMNode, Value: uint64(1000 + 2*i)},
+			LL: wm.E7(cx+gx*9000+int64(r.Intn(5000)), cy+gy*9000+int64(r.Intn(5000)))})
+	}
+	seen := map[[2]int]bool{}
+	used := map[int]int{}
+	nw := r.Range(18, 40)
+	for wi := 0; wi < nw; wi++ {
+		a, b := r.Intn(np), r.Intn(np)
+		if wi < np { // a spanning chain first, so that most junctions are connected
+			a, b = wi, (wi+1)%np
+		}
+		if a == b || seen[[2]int{a, b}] || seen[[2]int{b, a}] {
+			continue
+		}
+		seen[[2]int{a, b}] = true
+		w := &wm.Spec{ID: b6.FeatureID{Type: b6.FeatureTypePath, Namespace: b6.NamespaceOSMWay, Value: uint64(5000 + 2*wi)}, Tags: c30WayTags(r),
+			Path: []wm.Elem{{Ref: n.points[a].ID}, {Ref: n.points[b].ID}}}
+		for ti := range w.Tags { // a wide range of integer weights for the harness weighting
+			if w.Tags[ti].Key == "hw" {
+				w.Tags[ti].Value = b6.NewStringExpression(fmt.Sprint(r.Range(1, 40)))
+			}
+		}
+		if r.Chance(0.25) && np > 4 { // a longer street through a third junction
+			m := r.Intn(np)
+			if m != a && m != b {
+				w.Path = []wm.Elem{{Ref: n.points[a].ID}, {Ref: n.points[m].ID}, {Ref: n.points[b].ID}}
+				used[m]++
+			}
+		}
+		used[a]++
+		used[b]++
+		n.ways = append(n.ways, w)
+	}
+	for _, w := range n.ways {
+		for _, t := range w.Tags {
+			if t.Key == "oneway" && t.Value.String() == "yes" {
+				n.oneway++
+			}
+		}
+	}
+	for _, c := range used {
+		if c >= 2 {
+			n.shared++
+		}
+	}
+	n.specs = append(n.specs, n.points...)
+	n.specs = append(n.specs, n.ways...)
+	return n
 }
